@@ -64,6 +64,15 @@ ReflectOdd(a, w) == IF w <= Len(a) - 1 THEN ReflectOnce(a, w)
 \* numpy.pad(a, w, 'median', stat_length=1): replicate the end values
 EdgePad(a, w) == [i \in 1..w |-> a[1]] \o a \o [i \in 1..w |-> a[Len(a)]]
 
+\* numpy.pad(a, w, 'reflect') (even reflection, numpy's default reflect_type) - a custom choice for mag_pad_opts
+EvenOnce(a, w) ==
+    LET n == Len(a) IN
+    [i \in 1..w |-> a[w + 2 - i]] \o a \o [i \in 1..w |-> a[n - i]]
+ReflectEven(a, w) == IF w <= Len(a) - 1 THEN EvenOnce(a, w)
+                     ELSE EvenOnce(EvenOnce(a, Len(a) - 1), w - (Len(a) - 1))
+\* magnitude padding as configured: "edge" = the default (median of one value), "reflect" = {'mode': 'reflect'}
+MagPad(mm, a, w) == IF mm = "reflect" THEN ReflectEven(a, w) ELSE EdgePad(a, w)
+
 NoExtrema == <<"None">>
 
 RECURSIVE PadLoop(_, _, _, _)
@@ -80,6 +89,19 @@ Padded(s, pw, mode, parab) ==
     IN  IF k <= 1 THEN NoExtrema
         ELSE IF w = 0 THEN e
         ELSE PadLoop(ReflectOdd(e[1], w), EdgePad(e[2], w), w, Len(s))
+
+\* ... with user-supplied np.pad options for the magnitudes (the same options govern the first and every repeated round)
+RECURSIVE PadLoopM(_, _, _, _, _)
+PadLoopM(l, m, w, n, mm) == IF l[Len(l)] <= LS * (n - 1) \/ l[1] >= 0
+                            THEN PadLoopM(ReflectOdd(l, w), MagPad(mm, m, w), w, n, mm)
+                            ELSE <<l, m>>
+PaddedWith(s, pw, mode, parab, mm) ==
+    LET e == Extrema(s, mode, parab)
+        k == Len(e[1])
+        w == IF k < pw THEN k ELSE pw
+    IN  IF k <= 1 THEN NoExtrema
+        ELSE IF w = 0 THEN e
+        ELSE PadLoopM(ReflectOdd(e[1], w), MagPad(mm, e[2], w), w, Len(s), mm)
 
 ---------------------------------------------------------------------------
 (* Behaviour beyond the listed properties that rests on the same extrema rules.                          *)
